@@ -294,6 +294,22 @@ Example notebook_builtin_first :
                               Recv (CNbClose 1 101); Recv (CNbChange 1 5%Z)]) = true.
 Proof. vm_compute. split; reflexivity. Qed.
 
+(* the server stops (exit / connection lost -> JsonRPCServer.shutdown(), which waits for the pool): a burst
+   of didOpen with a @thread user feature, one picked up, two still queued when `shutdown` arrives and the
+   stop path runs: the queued handlers run then, each once, on the pool, after their built-ins *)
+Definition cfg_stop : cfg :=
+  mkCfg (registry_of [mkattempt RFeature (Some s_did_open) ONone (fn 1 false (First true ANone)) TAbove]) [] [] [1] [].
+Definition evs_stop : list evx :=
+  map Base [Recv (CInitialize 1 []); Recv (CDidOpen 1 1%Z 1); Recv (CDidOpen 2 1%Z 2); JobStart 0;
+            Recv (CDidOpen 3 1%Z 3); Recv (CShutdown 2)].
+Example stop_runs_the_queue :
+  map (fun h => (h_msg h, h_part h, h_site h)) (hlog (runx cfg_stop (evs_stop ++ [Stop]))) =
+    [(0%nat, PBuiltin, OnLoop); (1%nat, PBuiltin, OnLoop); (2%nat, PBuiltin, OnLoop); (1%nat, PUser, OnPool);
+     (3%nat, PBuiltin, OnLoop); (4%nat, PBuiltin, OnLoop); (2%nat, PUser, OnPool); (3%nat, PUser, OnPool)] /\
+  hlog (runx cfg_stop (evs_stop ++ [Stop; Stop])) = hlog (runx cfg_stop (evs_stop ++ [Stop])) /\
+  quiescent (runx cfg_stop (evs_stop ++ [Stop])) = true.
+Proof. vm_compute. repeat split; reflexivity. Qed.
+
 (* ------------------------------------------------------------------ the reference of the harness *)
 (* Spec.spec_run (what bin/c14_driver prints as S) is, message by message, what the clauses above
    speak about: message n is judged in the workspace the first n messages leave, owes `expect`,
